@@ -32,7 +32,21 @@ func ho17Classes(v string, def spg.CTFlag) spg.CTFlag {
 var ho17Separators = []string{"", "hyphen", "space", "comma", "period", "underscore", "digit", "none", "bogus"}
 var ho17SepChars = map[string]string{"": "-", "hyphen": "-", "space": " ", "comma": ",", "period": ".", "underscore": "_", "none": "", "bogus": ""}
 var ho17Schemes = []string{"", "none", "first", "all", "random", "one", "bogus"}
-var ho17Files = []string{"", "uno dos tres\n", "uno\ndos\nuno\ntres\n", "solo"}
+var ho17Files = []string{"", "uno dos tres\n", "uno\ndos\nuno\ntres\n", "solo", "@long-line@"}
+
+// ho17File: the content of word file i; the last one is a 12 000-word list kept
+// on one line of more than 64 KiB, followed by a short line.
+func ho17File(i int) string {
+	f := ho17Files[i]
+	if f != "@long-line@" {
+		return f
+	}
+	parts := make([]string, 12000)
+	for k := range parts {
+		parts[k] = fmt.Sprintf("w%dx", k)
+	}
+	return strings.Join(parts, " ") + "\nlast line\n"
+}
 
 func ho17Validate(stdout string, want func(pw string) bool, what string) {
 	vAssert(strings.HasSuffix(stdout, "\n") && strings.Count(stdout, "\n") == 1, "opgen does not print exactly one line on standard output")
@@ -151,7 +165,7 @@ func HO17w() {
 	case 2:
 		argv, size = append(argv, "--size", "3"), 3
 	}
-	file := ho17Files[vChoice("file", vParam("files", len(ho17Files)))]
+	file := ho17File(vChoice("file", vParam("files", len(ho17Files))))
 	listName := ""
 	var words []string
 	if file != "" {
@@ -181,7 +195,7 @@ func HO17w() {
 		argv = append(argv, "--capitalize", scheme)
 	}
 	entropy := vChoice("entropy", 2) == 1
-	if file == "" && listName != "klingon" && !entropy && vEngine() {
+	if (file == "" || len(words) > 50) && listName != "klingon" && !entropy && vEngine() {
 		// generation from the 18 328-word shipped lists with symbolic draws is
 		// outside the engine's reach (a selection term over every word); the
 		// shipped lists are covered by --entropy here, by C16 (content) and by
